@@ -259,7 +259,9 @@ def main():
         'wall_s': round(wall, 2),
         'violations': len(violations),
     }
-    if not args.no_lean:            # (a debugging run without the Lean side proves nothing: no evidence file)
+    # evidence describes /repo only: no file from a debugging run without the Lean side, nor from a run
+    # against a scratch worktree (HS_REPO)
+    if not args.no_lean and os.path.realpath(os.environ.get('HS_REPO', '/repo')) == '/repo':
         write_evidence(pid, ev)
     for l in known_lines:
         print(l)
